@@ -315,3 +315,90 @@ Proof.
   apply value_loop_spec in H. destruct H as [_ Hall].
   destruct (Hall _ _ Hin) as [p [l [x [_ [_ Hz]]]]]. congruence.
 Qed.
+
+(* ------------------------------------------------------------------ tag- and field-restricted keys *)
+(* read-back for any selection made among the enabled fields *)
+Lemma value_loop_readback L st fv sel v :
+  sound_layout L (s_tree st) (s_store st) -> values_fit (s_tree st) (s_store st) fv ->
+  incl sel (enabled_fields (s_tree st) fv) ->
+  value_loop (s_store st) fv sel 0 = Ok v ->
+  forall i f, In (i, f) sel ->
+    exists p l x, frange (s_store st) f = Some (p, l) /\ zassoc i fv = Some x /\ read_field v p l = x.
+Proof.
+  intros SL HF Hsub H i f Hin.
+  apply value_loop_spec in H. destruct H as [Hv Hall]. rewrite Z.lor_0_l in Hv. subst v.
+  destruct (Hall _ _ Hin) as [p [l [x [Hr [Hp Hz]]]]].
+  exists p, l, x. split; [exact Hr|split; [exact Hz|]].
+  pose proof (Hsub _ Hin) as Hen.
+  destruct (HF _ _ _ Hen Hz) as [p' [l' [Hr' Hx]]].
+  assert (p' = p /\ l' = l) by (split; congruence). destruct H; subst p' l'.
+  destruct (placed_pos _ _ _ _ _ _ _ _ (sl_placed _ _ _ SL) Hen Hr) as [P1 [P2 P3]].
+  apply key_bits_readback with (i := i) (f := f); auto.
+  intros i' f' p' l' x' Hin' Hr'' Hz'. pose proof (Hsub _ Hin') as Hen'.
+  destruct (Nat.eq_dec f' f) as [->|Hne].
+  - left. split; [|reflexivity]. eapply enabled_same_fid; eauto. apply (sl_unique _ _ _ SL).
+  - right. destruct (HF _ _ _ Hen' Hz') as [p2 [l2 [Hr2 Hx2]]].
+    assert (p2 = p' /\ l2 = l') by (split; congruence). destruct H; subst p2 l2.
+    destruct (placed_pos _ _ _ _ _ _ _ _ (sl_placed _ _ _ SL) Hen' Hr'') as [Q1 [Q2 Q3]].
+    split; [lia|split; [exact Hx2|]].
+    apply (sl_disjoint _ _ _ SL fv i f i' f' Hen Hen' (fun E => Hne (eq_sym E)) _ _ _ _ Hr Hr'').
+Qed.
+
+(* get_value(tag=...): every present field carrying the tag is read back at its position *)
+Lemma tag_value_readback L st fv tg v :
+  sound_layout L (s_tree st) (s_store st) -> values_fit (s_tree st) (s_store st) fv ->
+  get_value st fv (Some tg) None = Ok v ->
+  forall i f, In (i, f) (filter (has_tag (s_store st) tg) (enabled_fields (s_tree st) fv)) ->
+    exists p l x, frange (s_store st) f = Some (p, l) /\ zassoc i fv = Some x /\ read_field v p l = x.
+Proof.
+  intros SL HF H i f Hin. unfold get_value, select in H. simpl in H.
+  destruct (filter (has_tag (s_store st) tg) (enabled_fields (s_tree st) fv)) as [|x0 xs] eqn:Ef; [discriminate|].
+  cbn [bind] in H.
+  match type of H with (if ?c then _ else _) = _ => destruct c end; [discriminate|].
+  eapply value_loop_readback; eauto.
+  intros y Hy. assert (Hy' : In y (filter (has_tag (s_store st) tg) (enabled_fields (s_tree st) fv))) by (now rewrite Ef).
+  apply filter_In in Hy'. tauto.
+Qed.
+
+(* get_value(field=...) *)
+Lemma field_value_readback L st fv i v :
+  sound_layout L (s_tree st) (s_store st) -> values_fit (s_tree st) (s_store st) fv ->
+  get_value st fv None (Some i) = Ok v ->
+  exists f p l x, get_field (s_tree st) i fv = Some f /\ frange (s_store st) f = Some (p, l)
+                  /\ zassoc i fv = Some x /\ read_field v p l = x.
+Proof.
+  intros SL HF H. unfold get_value, select in H.
+  destruct (get_field (s_tree st) i fv) as [f|] eqn:Eg; [|discriminate]. cbn [bind] in H.
+  match type of H with (if ?c then _ else _) = _ => destruct c end; [discriminate|].
+  pose proof (get_field_enabled _ _ _ _ Eg) as Hen.
+  destruct (value_loop_readback L st fv [(i, f)] v SL HF) with (i := i) (f := f) as [p [l [x [A [B C]]]]]; auto.
+  - intros y [<-|[]]. exact Hen.
+  - now left.
+  - exists f, p, l, x. auto.
+Qed.
+
+(* UnknownTagError is raised exactly when no present field carries the tag *)
+Lemma mask_loop_not_tag_error s : forall sel acc, mask_loop s sel acc <> Failed E_TAG.
+Proof.
+  induction sel as [|[i f] sel IH]; intros acc; simpl; [discriminate|].
+  destruct (f_len (sget s f)); [|discriminate]. destruct (f_start (sget s f)) as [p|]; [|discriminate].
+  destruct (p <? 0); [discriminate|apply IH].
+Qed.
+
+Lemma unknown_tag_iff st fv tg :
+  get_mask st fv (Some tg) None = Failed E_TAG <->
+  filter (has_tag (s_store st) tg) (enabled_fields (s_tree st) fv) = [].
+Proof.
+  unfold get_mask, select. simpl.
+  destruct (filter (has_tag (s_store st) tg) (enabled_fields (s_tree st) fv)) as [|x xs] eqn:Ef.
+  - split; reflexivity.
+  - cbn [bind]. split; [|discriminate]. intros H. exfalso. eapply mask_loop_not_tag_error; eauto.
+Qed.
+
+(* ------------------------------------------------------------------ refused operations leave no trace *)
+Lemma call_refused_no_effect st fv kw st' k : call st fv kw = (st', Some k) -> st' = st.
+Proof.
+  unfold call. intros H.
+  match type of H with (if ?c then _ else _) = _ => destruct c end; [now inversion H|].
+  destruct (call_check (s_tree st) (s_store st) (kw ++ fv) (kw ++ fv)); [now inversion H|discriminate].
+Qed.
